@@ -563,3 +563,187 @@ End Wrapper.
 
 Theorem empty_graph_matching : perfect [] [] /\ is_min_pm [] [] = true /\ all_pms [] = [[]].
 Proof. split; [|split; reflexivity]. apply is_perfect_spec. reflexivity. Qed.
+
+(* ---------- the matcher contract is satisfiable: an exhaustive maximum-cardinality maximum-weight
+   matcher (enumerate ALL matchings, keep the best by (cardinality, weight)) meets it; so
+   wrapper_min_perfect is not vacuous ---------- *)
+Fixpoint ams (g : graph) (fuel : nat) (ns : list nat) : list matching :=
+  match fuel with
+  | O => [[]]
+  | S f =>
+    match ns with
+    | [] => [[]]
+    | a :: rest =>
+        ams g f rest ++
+        flat_map (fun b => match edge g a b with
+                           | Some _ => map (cons (a, b)) (ams g f (remove1 b rest))
+                           | None => [] end) rest
+    end
+  end.
+Definition all_matchings (g : graph) : list matching := ams g (length (nodes g)) (nodes g).
+
+Lemma remove1_In x y l : In y (remove1 x l) -> In y l.
+Proof. induction l as [|z l IH]; cbn; auto. destruct (x =? z); cbn; intuition. Qed.
+Lemma remove1_In_neq x y l : In y l -> y <> x -> In y (remove1 x l).
+Proof.
+  induction l as [|z l IH]; cbn; auto. intros [->|H] Hn.
+  - destruct (x =? y) eqn:E; [apply Nat.eqb_eq in E; congruence|cbn; auto].
+  - destruct (x =? z); cbn; auto.
+Qed.
+Lemma remove1_NoDup x l : NoDup l -> NoDup (remove1 x l).
+Proof.
+  induction 1 as [|z l Hz Hl IH]; cbn; [constructor|]. destruct (x =? z); auto.
+  constructor; auto. intros H. apply Hz. eapply remove1_In; eauto.
+Qed.
+Lemma remove1_notin x l : NoDup l -> ~ In x (remove1 x l).
+Proof.
+  induction 1 as [|z l Hz Hl IH]; cbn; auto. destruct (x =? z) eqn:E.
+  - apply Nat.eqb_eq in E. now subst.
+  - cbn. intros [->|H]; [now rewrite Nat.eqb_refl in E|auto].
+Qed.
+
+Lemma ams_sound g fuel : forall ns m, NoDup ns -> In m (ams g fuel ns) ->
+  NoDup (ends m) /\ incl (ends m) ns /\ uses_edges g m.
+Proof.
+  induction fuel as [|f IH]; intros ns m Hnd H.
+  - destruct H as [<-|[]]. repeat split; [constructor|intros x []|intros p []].
+  - destruct ns as [|a rest]; cbn [ams] in H.
+    + destruct H as [<-|[]]. repeat split; [constructor|intros x []|intros p []].
+    + inversion Hnd as [|? ? Ha Hrest]; subst. apply in_app_or in H. destruct H as [H|H].
+      * destruct (IH rest m Hrest H) as (H1 & H2 & H3). repeat split; auto. intros x Hx. right. auto.
+      * apply in_flat_map in H. destruct H as (b & Hb & H). destruct (edge g a b) as [w|] eqn:E; [|destruct H].
+        apply in_map_iff in H. destruct H as (m' & <- & Hm').
+        destruct (IH (remove1 b rest) m' (remove1_NoDup b rest Hrest) Hm') as (H1 & H2 & H3).
+        repeat split.
+        -- cbn. constructor.
+           ++ intros [->|Hin]; [contradiction|]. apply Ha. eapply remove1_In. apply H2. exact Hin.
+           ++ constructor; auto. intros Hin. apply (remove1_notin b rest Hrest). apply H2. exact Hin.
+        -- intros x [<-|[<-|Hx]]; cbn; auto. right. eapply remove1_In. apply H2. exact Hx.
+        -- intros p [<-|Hp]; [cbn; congruence|auto].
+Qed.
+
+Lemma ams_complete g fuel : forall ns m, length ns <= fuel -> NoDup ns ->
+  NoDup (ends m) -> incl (ends m) ns -> uses_edges g m ->
+  exists m', In m' (ams g fuel ns) /\ meq m m'.
+Proof.
+  induction fuel as [|f IH]; intros ns m Hlen Hnd Hm Hincl U.
+  - destruct ns; cbn in Hlen; [|lia]. destruct m as [|p m]; [|exfalso; apply (Hincl (fst p)); cbn; auto].
+    exists []. split; [cbn; auto|constructor].
+  - destruct ns as [|a rest].
+    + destruct m as [|p m]; [|exfalso; apply (Hincl (fst p)); cbn; auto]. exists []. split; [cbn; auto|constructor].
+    + inversion Hnd as [|? ? Ha Hrest]; subst. cbn in Hlen.
+      destruct (in_dec Nat.eq_dec a (ends m)) as [Hin|Hnin].
+      * unfold ends in Hin. apply in_flat_map in Hin. destruct Hin as (p & Hp & Hap).
+        apply in_split in Hp. destruct Hp as (l1 & l2 & ->). set (m0 := l1 ++ l2).
+        assert (Hmid : Permutation (l1 ++ p :: l2) (p :: m0)) by (symmetry; apply Permutation_middle).
+        assert (Hb : exists b, meq (l1 ++ p :: l2) ((a, b) :: m0) /\ (p = (a, b) \/ p = (b, a))).
+        { destruct p as [x y]. cbn in Hap. destruct Hap as [<-|[<-|[]]].
+          - exists y. split; auto. now apply meq_perm.
+          - exists x. split; auto. eapply meq_trans; [apply meq_perm, Hmid|apply meq_flip]. }
+        destruct Hb as (b & Hmeq & Hpb).
+        assert (Pe : Permutation (ends (l1 ++ p :: l2)) (a :: b :: ends m0)).
+        { rewrite ends_app. cbn [ends flat_map]. unfold m0. rewrite ends_app.
+          destruct Hpb as [-> | ->]; cbn [fst snd app].
+          - rewrite <- Permutation_middle. apply perm_skip. rewrite <- Permutation_middle. reflexivity.
+          - rewrite <- Permutation_middle. rewrite <- Permutation_middle. apply perm_swap. }
+        assert (Hnd' : NoDup (a :: b :: ends m0)) by (eapply Permutation_NoDup; eauto).
+        assert (Hincl' : incl (a :: b :: ends m0) (a :: rest)).
+        { intros x Hx. apply Hincl. eapply Permutation_in; [apply Permutation_sym; exact Pe|exact Hx]. }
+        inversion Hnd' as [|? ? Hab Hnd'']; subst. inversion Hnd'' as [|? ? Hb0 Hnd0]; subst.
+        assert (Hbr : In b rest).
+        { destruct (Hincl' b ltac:(cbn; auto)) as [E|H]; auto. exfalso. apply Hab. cbn. auto. }
+        assert (He : edge g a b <> None).
+        { specialize (U p ltac:(apply in_or_app; right; cbn; auto)).
+          destruct Hpb as [-> | ->]; cbn in U; auto. now rewrite edge_sym. }
+        assert (U0 : uses_edges g m0).
+        { intros q Hq. apply U. unfold m0 in Hq. apply in_app_or in Hq. apply in_or_app. cbn. tauto. }
+        destruct (IH (remove1 b rest) m0) as (m' & Hm' & Hmeq'); auto.
+        { pose proof (remove1_length _ _ Hbr). lia. }
+        { now apply remove1_NoDup. }
+        { intros x Hx. apply remove1_In_neq.
+          - destruct (Hincl' x ltac:(cbn; auto)) as [E|H]; auto. exfalso. apply Hab. cbn. right. now subst.
+          - intros ->. contradiction. }
+        exists ((a, b) :: m'). split.
+        -- cbn [ams]. apply in_or_app. right. apply in_flat_map. exists b. split; auto.
+           destruct (edge g a b); [|congruence]. now apply in_map.
+        -- eapply meq_trans; [exact Hmeq|]. now apply meq_cons.
+      * destruct (IH rest m) as (m' & Hm' & Hmeq'); auto; [lia| |].
+        { intros x Hx. destruct (Hincl x Hx) as [<-|H]; auto. contradiction. }
+        exists m'. split; auto. cbn [ams]. apply in_or_app. auto.
+Qed.
+
+Theorem all_matchings_sound g m : In m (all_matchings g) -> is_matching g m.
+Proof. intros H. apply ams_sound in H; [|apply nodes_nodup]. destruct H as (H1 & _ & H3). split; auto. Qed.
+Theorem all_matchings_complete g m : is_matching g m -> exists m', In m' (all_matchings g) /\ meq m m'.
+Proof.
+  intros H. pose proof (matching_ends_incl g m H) as Hi. destruct H as [H1 H2].
+  apply ams_complete; auto. apply nodes_nodup.
+Qed.
+
+(* keep the best by (cardinality, weight) *)
+Definition geq (g : graph) (m1 m2 : matching) : bool :=   (* m2 is at least as good as m1 *)
+  (length m1 <? length m2) || ((length m1 =? length m2) && Qle_bool (weight g m1) (weight g m2)).
+Definition pick_best (g : graph) (ms : list matching) (m0 : matching) : matching :=
+  fold_left (fun acc m => if geq g acc m then m else acc) ms m0.
+Definition brute_maxw (g : graph) : matching := pick_best g (all_matchings g) [].
+
+Lemma geq_refl g m : geq g m m = true.
+Proof. unfold geq. rewrite Nat.eqb_refl. cbn. rewrite orb_true_iff. right. apply Qle_bool_iff, Qle_refl. Qed.
+Lemma geq_trans g a b c : geq g a b = true -> geq g b c = true -> geq g a c = true.
+Proof.
+  unfold geq. rewrite !orb_true_iff, !andb_true_iff, !Nat.ltb_lt, !Nat.eqb_eq, !Qle_bool_iff.
+  intros [H1|[H1 W1]] [H2|[H2 W2]]; [left; lia|left; lia|left; lia|right]. split; [lia|]. eapply Qle_trans; eauto.
+Qed.
+Lemma geq_total g a b : geq g a b = false -> geq g b a = true.
+Proof.
+  unfold geq. rewrite orb_false_iff, andb_false_iff, Nat.ltb_ge, Nat.eqb_neq. intros [H1 H2].
+  rewrite orb_true_iff, andb_true_iff, Nat.ltb_lt, Nat.eqb_eq, Qle_bool_iff.
+  destruct (Nat.eq_dec (length a) (length b)) as [E|E]; [|left; lia].
+  right. split; auto. destruct H2 as [H2|H2]; [congruence|].
+  destruct (Qlt_le_dec (weight g b) (weight g a)) as [L|L]; [now apply Qlt_le_weak|].
+  apply Qle_bool_iff in L. congruence.
+Qed.
+Lemma pick_best_spec g ms : forall m0,
+  (pick_best g ms m0 = m0 \/ In (pick_best g ms m0) ms) /\ geq g m0 (pick_best g ms m0) = true /\
+  forall m, In m ms -> geq g m (pick_best g ms m0) = true.
+Proof.
+  induction ms as [|x ms IH]; intros m0.
+  - unfold pick_best. cbn. split; auto. split; [apply geq_refl|tauto].
+  - change (pick_best g (x :: ms) m0) with (pick_best g ms (if geq g m0 x then x else m0)).
+    destruct (geq g m0 x) eqn:E.
+    + destruct (IH x) as (H1 & H2 & H3). split; [destruct H1 as [-> |H1]; cbn; auto|]. split.
+      * eapply geq_trans; eauto.
+      * intros m [<-|Hm]; auto.
+    + destruct (IH m0) as (H1 & H2 & H3). split; [destruct H1; cbn; auto|]. split; auto.
+      intros m [<-|Hm]; auto. eapply geq_trans; [apply geq_total; exact E|exact H2].
+Qed.
+
+Theorem brute_maxw_matching h : is_matching h (brute_maxw h).
+Proof.
+  unfold brute_maxw. destruct (pick_best_spec h (all_matchings h) []) as ([-> |H] & _ & _).
+  - split; [constructor|intros p []].
+  - now apply all_matchings_sound.
+Qed.
+Lemma brute_maxw_best h m : is_matching h m -> exists m', meq m m' /\ geq h m' (brute_maxw h) = true.
+Proof.
+  intros Hm. destruct (all_matchings_complete h m Hm) as (m' & Hin & Heq). exists m'. split; auto.
+  unfold brute_maxw. now apply (pick_best_spec h (all_matchings h) []).
+Qed.
+Theorem brute_maxw_card h m : is_matching h m -> length m <= length (brute_maxw h).
+Proof.
+  intros Hm. destruct (brute_maxw_best h m Hm) as (m' & Heq & Hg). apply meq_same_pairs in Heq. destruct Heq as [_ L].
+  unfold geq in Hg. rewrite orb_true_iff, andb_true_iff, Nat.ltb_lt, Nat.eqb_eq in Hg. lia.
+Qed.
+Theorem brute_maxw_weight h m : is_matching h m -> length m = length (brute_maxw h) ->
+  (weight h m <= weight h (brute_maxw h))%Q.
+Proof.
+  intros Hm L. destruct (brute_maxw_best h m Hm) as (m' & Heq & Hg). rewrite (weight_meq h _ _ Heq).
+  apply meq_same_pairs in Heq. destruct Heq as [_ L'].
+  unfold geq in Hg. rewrite orb_true_iff, andb_true_iff, Nat.ltb_lt, Nat.eqb_eq, Qle_bool_iff in Hg.
+  destruct Hg as [Hg|[_ Hg]]; [lia|exact Hg].
+Qed.
+(* the wrapper instantiated with the exhaustive matcher: unconditional *)
+Theorem brute_mwpm_min_perfect g : (exists m0, perfect g m0) ->
+  perfect g (mwpm_networkx brute_maxw g) /\
+  forall m', perfect g m' -> (weight g (mwpm_networkx brute_maxw g) <= weight g m')%Q.
+Proof. apply (wrapper_min_perfect brute_maxw brute_maxw_matching brute_maxw_card brute_maxw_weight). Qed.
